@@ -505,6 +505,11 @@ def _check_trim(c, rec, image, w, spec, Screen):
             a_rows = None if (tt == 0 and rr == H and tl % 2) else rr
 
             def request():
+                if (tl + tt + cc) % 3 == 0 and rr > 1:
+                    # an earlier request for the same rectangle was abandoned after its first row (interrupted redraw)
+                    g = canv.content(tl, tt, a_cols, a_rows)
+                    next(g, None)
+                    g.close()
                 return list(canv.content(tl, tt, a_cols, a_rows))
         out = lib(request, tw)
         sig = {"kind": "trim", "style": style, "horizontal": bool(tl or tr)}
